@@ -65,8 +65,8 @@ def make_objs(rng, n):
     return objs
 
 
-def compare_impl(a, b, order, contigs):
-    so = SC.order_obj(order, contigs)
+def compare_impl(a, b, order, contigs, so=None):
+    so = SC.order_obj(order, contigs) if so is None else so
     f = so.sort_key()
     try:
         ka, kb = f(a), f(b)
@@ -87,14 +87,18 @@ def compare_impl(a, b, order, contigs):
     return res
 
 
-def eval_pair(ka, a, kb, b, order, cs, la=None, lb=None):
+def eval_pair(ka, a, kb, b, order, cs, la=None, lb=None, so=None, route=None):
     """One comparison on the implementation and the oracle's verdict on it (shared by run and replay_case).
 
+    `so` is the sort order object to take the keys from when (order, cs) reached the library through `route`
+    (default: Coordinate(contigs=cs) / BarcodesAndCoordinate(contigs=cs)); the documented order is the same for all.
     Returns (implementation's answer, where, failures, tag); tag is "contig-missing", "key-failed" or the documented cmp."""
     la = SC.loc_json(a) if la is None else la
     lb = SC.loc_json(b) if lb is None else lb
-    i = compare_impl(a, b, order, cs)
+    i = compare_impl(a, b, order, cs, so)
     where = {"order": order, "contigs": cs, "a": la, "b": lb, "kinds": [ka, kb]}
+    if route is not None:
+        where["route"] = route
     fails = []
     # oracle: well-formed inputs never fail, and agree with the documented order
     missing_contig = bool(cs) and any(x["chr"] is None or str(x["chr"]) not in cs for x in (la, lb))
@@ -114,6 +118,165 @@ def eval_pair(ka, a, kb, b, order, cs, la=None, lb=None):
                           kind="wrong-order" if not any(isinstance(i.get(k), str) for k in bad) else "compare-failed",
                           expected=exp, got=i))
     return i, where, fails, want
+
+
+
+def build_order(route, order, cs, tmp):
+    """(sort order object, None) or (None, failure text) for a route."""
+    try:
+        so = SC.order_via(route, order, cs, tmp)
+        so.sort_key()
+        return so, None
+    except Exception as e:  # noqa
+        return None, "supplying (order, contigs) through route %r failed with %s" % (route, exc_name(e))
+
+
+def route_cases(ctx, out, objs, contig_sets):
+    """Keys taken from sort orders that received (order, contigs) through every route the library offers: constructors
+    (keyword, positional, FASTA index), SortOrder.find, header records, from_lines with the pragmas in either order,
+    from_defaults, from_reader and the header of a reader.  They must all order like the documented order."""
+    import tempfile
+    rng = ctx.rng("routes")
+    recs = [o for o in objs if o[0] != "loc"]
+    reqs, meta = [], []
+    with tempfile.TemporaryDirectory() as tmp:
+        for _ in range(ctx.scale(150, 1500)):
+            order = rng.choice(["Coordinate", "BarcodesAndCoordinate"])
+            cs = rng.choice(contig_sets + contig_sets[1:])
+            route = rng.choice(SC.routes_for(cs))
+            so, err = build_order(route, order, cs, tmp)
+            if err:
+                out.evaluations += 1
+                out.failures.append({"order": order, "contigs": cs, "route": route, "what": err, "kind": "route-failed"})
+                continue
+            pool = recs if order == "BarcodesAndCoordinate" else objs
+            for _k in range(4):
+                (ka, a), (kb, b) = rng.choice(pool), rng.choice(pool)
+                la, lb = SC.loc_json(a), SC.loc_json(b)
+                out.evaluations += 1
+                i, where, fails, tag = eval_pair(ka, a, kb, b, order, cs, la, lb, so, route)
+                out.failures += fails
+                reqs.append({"op": "sortkey.cmp", "order": order, "contigs": cs, "a": la, "b": lb})
+                meta.append((i, route))
+                out.distribution["route:" + route] += 1
+                if isinstance(tag, int) and (tag != 0 or ka != kb):
+                    out.nontrivial.add(repr((la, lb, order, cs, route)))
+    for r, m, (i, route) in zip(reqs, ctx.driver.run(reqs), meta):
+        if has_unmodelled(m):
+            out.unmodelled += 1
+        elif m != i:
+            out.disagreements.append({"op": "sortkey.cmp", "route": route, "request": r, "model": m, "impl": i})
+
+
+# ---------------------------------------------------------------------------------------------------------------------
+# Order checking uses the same keys: a sequence of records sent through SortOrderChecker / SortOrderEnforcingIterator
+# is accepted up to the first descent, and a record on a chromosome that is missing from a supplied contig list is
+# reported as an error (ValueError) - it is not skipped, accepted or ordered arbitrarily.
+CHECKER_HOWS = ["add", "+=", "iterator"]
+
+
+def checker_run(so, objs, how):
+    """Send `objs` through the checker; (number accepted / yielded before the first error, error name or None)."""
+    from maflib.sort_order import SortOrderChecker, SortOrderEnforcingIterator
+    n = 0
+    try:
+        if how == "iterator":
+            for _rec in SortOrderEnforcingIterator(iter(list(objs)), so):
+                n += 1
+        else:
+            ch = SortOrderChecker(so)
+            for o in objs:
+                if how == "add":
+                    ch.add(o)
+                else:
+                    ch += o
+                n += 1
+    except Exception as e:  # noqa
+        return n, exc_name(e)
+    return n, None
+
+
+def expected_checker(locs, order, cs):
+    """(records accepted, error or None) by the statement: stop at the first record whose chromosome is not in the
+    supplied contig list or that descends below its predecessor, whichever comes first."""
+    for k, l in enumerate(locs):
+        if cs and (l["chr"] is None or str(l["chr"]) not in cs):
+            return k, "ValueError", "contig-missing"
+        if k and expected_cmp(l, locs[k - 1], order, cs) < 0:
+            return k, "ValueError", "descent"
+    return len(locs), None, "sorted"
+
+
+def eval_checker(kinds, objs, order, cs, so, route, how):
+    """One sequence through the checker and the oracle's verdict (shared by run and replay_case)."""
+    locs = [SC.loc_json(o) for o in objs]
+    n, err = checker_run(so, objs, how)
+    want_n, want_err, why = expected_checker(locs, order, cs)
+    where = {"case": "checker", "order": order, "contigs": cs, "route": route, "how": how, "kinds": list(kinds), "recs": locs}
+    fails = []
+    if (n, err) != (want_n, want_err):
+        what = {"contig-missing": "record %d is on a chromosome missing from the contig list: expected %d records accepted, then ValueError" % (want_n, want_n),
+                "descent": "first descent at record %d: expected exactly %d records accepted, then the ordering error" % (want_n, want_n),
+                "sorted": "records in non-decreasing key order were not all accepted"}[why]
+        fails.append(dict(where, what=what, kind="checker-" + why, got={"accepted": n, "exc": err}))
+    return (n, err), where, fails, why
+
+
+def checker_model_differs(r, m, got):
+    if has_unmodelled(m):
+        return None
+    if (m.get("yielded"), m.get("err")) != tuple(got):
+        return {"op": "checker.run", "request": r, "model": m, "impl": {"yielded": got[0], "err": got[1]}}
+    return None
+
+
+def checker_cases(ctx, out, objs, contig_sets):
+    import functools
+    import tempfile
+    rng = ctx.rng("checker")
+    listed = contig_sets[1]
+    keyable = [o for o in objs if SC.loc_json(o[1])["hasCoords"]]
+    # objects on chromosomes that no contig list names
+    strangers = [("typed", SC.typed_record(rng, "T1", "N1", "3", 10, 12)), ("untyped", SC.untyped_record("T1", "N1", "chrY", "10", "12")),
+                 ("typed", SC.typed_record(rng, "TA", None, "GL000192.1", 1, 1)), ("untyped", SC.untyped_record("T2", "", "11", "5", "5")),
+                 ("loc", SC.Loc("chrUn", 7, 9)), ("loc", SC.Loc(None, 7, 9))]
+    reqs, meta = [], []
+    with tempfile.TemporaryDirectory() as tmp:
+        for _ in range(ctx.scale(160, 1600)):
+            order = rng.choice(["Coordinate", "BarcodesAndCoordinate"])
+            cs = rng.choice(contig_sets + contig_sets[1:])
+            route = rng.choice(SC.routes_for(cs))
+            how = rng.choice(CHECKER_HOWS)
+            so, err = build_order(route, order, cs, tmp)
+            if err:
+                out.evaluations += 1
+                out.failures.append({"order": order, "contigs": cs, "route": route, "what": err, "kind": "route-failed"})
+                continue
+            pool = [o for o in keyable if order == "Coordinate" or o[0] != "loc"]
+            pool = [o for o in pool if not cs or (SC.loc_json(o[1])["chr"] is not None and str(SC.loc_json(o[1])["chr"]) in cs)]
+            seq = [rng.choice(pool) for _k in range(rng.choice([1, 2, 3, 4, 5]))]
+            seq.sort(key=functools.cmp_to_key(lambda x, y: expected_cmp(SC.loc_json(x[1]), SC.loc_json(y[1]), order, cs)))
+            shape = rng.choice(["sorted", "swap", "stranger", "stranger", "stranger+swap"])
+            if "swap" in shape and len(seq) >= 2:
+                i = rng.randrange(len(seq) - 1)
+                j = rng.randrange(i + 1, len(seq))
+                seq[i], seq[j] = seq[j], seq[i]
+            if "stranger" in shape and cs:
+                st = rng.choice([o for o in strangers if order == "Coordinate" or o[0] != "loc"])
+                seq.insert(rng.randrange(len(seq) + 1), st)
+            out.evaluations += 1
+            got, where, fails, why = eval_checker([k for k, _o in seq], [o for _k, o in seq], order, cs, so, route, how)
+            out.failures += fails
+            out.distribution["checker:" + why] += 1
+            out.distribution["checker-how:" + how] += 1
+            if len(seq) >= 2:
+                out.nontrivial.add(repr((where["recs"], order, cs, route, how)))
+            reqs.append({"op": "checker.run", "order": order, "contigs": cs, "recs": where["recs"]})
+            meta.append(got)
+    for r, m, got in zip(reqs, ctx.driver.run(reqs), meta):
+        d = checker_model_differs(r, m, got)
+        if d:
+            out.disagreements.append(d)
 
 
 def run(ctx):
@@ -156,6 +319,11 @@ def run(ctx):
             out.nontrivial.add(repr((la, lb, order, cs)))
         if len(out.samples) < 4 and ka != kb:
             out.sample(where)
+    out.rule += ("; the same pairs with keys taken from orders that received (order, contigs) through every constructor / FASTA-index / header-record / from_lines / "
+                 "from_defaults / from_reader / reader route; sequences of 1-6 records through SortOrderChecker.add, += and SortOrderEnforcingIterator: sorted, one swap, "
+                 "and a record on a chromosome that the contig list does not name at every position")
+    route_cases(ctx, out, objs, contig_sets)
+    checker_cases(ctx, out, objs, contig_sets)
     return out
 
 
@@ -173,10 +341,44 @@ def rebuild(kind, l):
 def replay_case(ctx, failure):
     """Re-evaluate the stored failing input on the current implementation; return the list of failure dicts it
     produces now (empty list = the property holds on that input)."""
+    import tempfile
+    if failure.get("kind") == "route-failed" and "route" in failure:
+        with tempfile.TemporaryDirectory() as tmp:
+            so, err = build_order(failure["route"], failure["order"], list(failure["contigs"] or []), tmp)
+        print("route %r with order=%s contigs=%s: %s" % (failure["route"], failure["order"], failure["contigs"], err or "a sort order is built"))
+        return [dict(failure, what=err)] if err else []
+    if failure.get("case") == "checker":
+        order, cs, route, how = failure["order"], list(failure["contigs"] or []), failure["route"], failure["how"]
+        objs = [rebuild(k, l) for k, l in zip(failure["kinds"], failure["recs"])]
+        if any(o is None for o in objs):
+            return None
+        print("order checking: order=%s contigs=%s supplied through route %r; records sent through %s:" % (
+            order, cs or "none", route, {"iterator": "SortOrderEnforcingIterator", "add": "SortOrderChecker.add", "+=": "SortOrderChecker +="}.get(how, how)))
+        for k, o in zip(failure["kinds"], objs):
+            print("    %s %s" % (k, json.dumps(SC.loc_json(o), sort_keys=True)))
+        with tempfile.TemporaryDirectory() as tmp:
+            so, err = build_order(route, order, cs, tmp)
+            if err:
+                print("implementation: %s" % err)
+                return [dict(failure, what=err, kind="route-failed")]
+            got, where, fails, why = eval_checker(failure["kinds"], objs, order, cs, so, route, how)
+        print("implementation: %d records accepted, then %s" % (got[0], got[1] or "the end of the sequence"))
+        want = expected_checker(where["recs"], order, cs)
+        print("documented: %d records accepted, then %s (%s)" % (want[0], want[1] or "the end of the sequence", want[2]))
+        try:
+            r = {"op": "checker.run", "order": order, "contigs": cs, "recs": where["recs"]}
+            m = ctx.driver.run([r])[0]
+            print("model: %s%s" % (json.dumps(m, sort_keys=True), "   (differs from the implementation)" if checker_model_differs(r, m, got) else ""))
+        except Exception as e:  # noqa
+            print("model: not available (%s)" % str(e)[:200])
+        for f in fails:
+            print("oracle fails: %s" % f["what"])
+        return fails
     need = ("a", "b", "kinds", "order", "contigs")
     if any(k not in failure for k in need) or len(failure["kinds"]) != 2:
         return None
     (ka, kb), order, cs = failure["kinds"], failure["order"], list(failure["contigs"] or [])
+    route = failure.get("route")
     a, b = rebuild(ka, failure["a"]), rebuild(kb, failure["b"])
     if a is None or b is None:
         return None
@@ -185,7 +387,15 @@ def replay_case(ctx, failure):
     for name, now, then in (("a", la, failure["a"]), ("b", lb, failure["b"])):
         if now != then:
             print("note: rebuilt %s reads as %s on this tree (stored: %s)" % (name, json.dumps(now, sort_keys=True), json.dumps(then, sort_keys=True)))
-    i, where, fails, tag = eval_pair(ka, a, kb, b, order, cs, la, lb)
+    so = None
+    if route is not None:
+        print("keys taken from the sort order built through route %r" % route)
+        with tempfile.TemporaryDirectory() as tmp:
+            so, err = build_order(route, order, cs, tmp)
+        if err:
+            print("implementation: %s" % err)
+            return [{"order": order, "contigs": cs, "route": route, "what": err, "kind": "route-failed"}]
+    i, where, fails, tag = eval_pair(ka, a, kb, b, order, cs, la, lb, so, route)
     print("implementation: %s" % json.dumps(i, sort_keys=True))
     if isinstance(tag, int):
         print("documented order: cmp=%d" % tag)
